@@ -5,15 +5,30 @@ import Wayfind.Proofs.ParseFault2
 theorem braceParam_some {t : Bytes} {s l : Nat} {c : Bytes} (h : braceParam t s l = some c) :
     2 ≤ l ∧ s + l ≤ t.length ∧ t[s]? = some 123 ∧ t[s + l - 1]? = some 125 := by
   unfold braceParam at h
-  by_cases h1 : l < 2
-  · simp [h1] at h
-  by_cases h2 : s + l > t.length
-  · simp [h2] at h
-  by_cases h3 : t[s]? = some 123
-  · by_cases h4 : t[s + l - 1]? = some 125
-    · exact ⟨by omega, by omega, h3, h4⟩
-    · simp [h4] at h
-  · simp [h3] at h
+  split at h
+  · rename_i rest hd
+    split at h
+    · rename_i hc
+      obtain ⟨h2, hci⟩ := hc
+      rw [closeIdx_eq_braceEnd] at hci
+      have hlt := braceEnd_lt rest 1 0 (l - 2) hci
+      have hat := braceEnd_at rest 1 0 (l - 2) hci
+      simp only [Nat.sub_zero] at hat
+      have hlen : s + 1 + rest.length = t.length := by
+        have := congrArg List.length hd
+        simp only [List.length_drop, List.length_cons] at this
+        omega
+      have h0 : t[s]? = some 123 := by
+        have := drop_getElem? t s 0
+        rw [hd] at this; simpa using this.symm
+      have hrest : rest = t.drop (s + 1) := by
+        have : t.drop (s + 1) = (t.drop s).drop 1 := by rw [List.drop_drop]
+        rw [this, hd]; rfl
+      refine ⟨h2, by omega, h0, ?_⟩
+      have e : s + l - 1 = (s + 1) + (l - 2) := by omega
+      rw [e, ← drop_getElem? t (s + 1) (l - 2), ← hrest]; exact hat
+    · cases h
+  · cases h
 
 theorem drop_two_of_getElem? (hay : Bytes) (i : Nat) (a b : Byte) (h1 : hay[i]? = some a) (h2 : hay[i + 1]? = some b) :
     ∃ r, hay.drop i = a :: b :: r := by
@@ -149,25 +164,12 @@ theorem parseLoop_error_local (raw : Bytes) : ∀ (fuel : Nat) (rest : Bytes) (c
               obtain ⟨a1, a2, a3, a4⟩ := braceParam_some hc1
               obtain ⟨b1, b2, b3, b4⟩ := hbps
               -- the two parameters: [st, st+ln) and [cursor, next) with cursor = st + ln
-              have hl : st + (next - st) ≤ raw.length := by omega
-              have h4 : next - st ≥ 4 := by omega
-              have hlast : raw[st + (next - st) - 1]? = some 125 := by
-                have : st + (next - st) - 1 = cursor + (n + 2) - 1 := by omega
-                rw [this]; exact b4
-              have hsub : hasSub [125, 123] ((raw.drop st).take (next - st)) = true := by
-                apply hasSub_pair _ (ln - 1)
-                · rw [List.getElem?_take]
-                  have : ln - 1 < next - st := by omega
-                  simp only [this, ite_true, drop_getElem?]
-                  have : st + (ln - 1) = st + ln - 1 := by omega
-                  rw [this]; exact a4
-                · rw [List.getElem?_take]
-                  have : ln - 1 + 1 < next - st := by omega
-                  simp only [this, ite_true, drop_getElem?]
-                  have : st + (ln - 1 + 1) = cursor := by omega
-                  rw [this]; exact b3
-              simp only [localFault, Bool.and_eq_true, decide_eq_true_eq, beq_iff_eq]
-              exact ⟨⟨⟨⟨hl, h4⟩, a3⟩, hlast⟩, hsub⟩
+              simp only [localFault]
+              apply List.any_eq_true.2
+              refine ⟨ln, List.mem_range.2 (by omega), ?_⟩
+              have e1 : st + ln = cursor := by omega
+              have e2 : next - st - ln = n + 2 := by omega
+              simp only [hc1, e1, e2, hbp, Option.isSome_some, Bool.and_self]
             · exact hdup e h
       · simp only [h123, ite_false] at h
         by_cases h125 : b = 125
